@@ -127,14 +127,16 @@ Fixpoint last_only (l : list pub) : list pub :=
   end.
 
 Definition cache_recovery (V : verd) (hist_rev : list pub) (top cmd : N) (epoch_eq : bool)
-           (live : list pub) : sres :=
+           (req_delta : bool) (live : list pub) : sres :=
   let '(latest, recd) := recover_cache V hist_rev in
   let '(recpubs, recovered) := is_cache_recovered latest recd top cmd epoch_eq in
   let '(out, _, ok) := merge recpubs (buffered_of V live) in
   if negb ok then SDisconnect
   else
-    (* "RecoveryModeCache && len > 1 && req.Delta == ''": keep the last one *)
-    let out' := match out with _ :: _ :: _ => last_only out | _ => out end in
+    (* "RecoveryModeCache && len > 1 && req.Delta == ''": keep the last one. The test is on the
+       delta type REQUESTED by the client (req_delta), also when the channel refused it. *)
+    let out' := if req_delta then out
+                else match out with _ :: _ :: _ => last_only out | _ => out end in
     SReply recovered (if recovered then out' else []).
 
 (* ------------------------------------------------------------------ map pages *)
